@@ -1,6 +1,7 @@
 import DM.Lemmas.DecTotal
 import DM.Lemmas.DecStr
 import DM.Props.C08
+import DM.Lemmas.RSTotal
 /-!
 # C05 — decoding untrusted input never panics or hangs
 
@@ -13,8 +14,17 @@ Proved here (for the models, whose every Rust panic site is an explicit outcome)
   the per-byte conversion tables (regenerated from the code) cover every byte;
 * `try_from_bits_total`: the bitmap parser reads only positions inside the pixel array.
 
-Not proved (decided by model/implementation correspondence and sweeps, see DESIGN.md):
-the Reed–Solomon decoder.
+* `rs_decode_panics_only_algebraic`: for **every** symbol size and every codeword vector of that
+  size's length, the Reed–Solomon decoder model (syndromes, Levinson–Durbin with its singular case,
+  Chien search, malfunction test, Björck–Pereyra, correction) can reach none of its ~45 index, slice,
+  subtraction, division and assertion panic sites; the only panic outcomes left are the two
+  *algebraic* debug assertions that re-check equations (3) and (4) of the Levinson–Durbin recursion
+  (they exist only in builds with debug assertions), and the decoder always terminates (the model's
+  loops are bounded by construction; `rs_decode_length`: a success returns a vector of the same length).
+
+Not proved (decided by model/implementation correspondence and sweeps, see DESIGN.md): that the
+identities (3) and (4) of the Levinson–Durbin recursion hold, i.e. that the two remaining debug
+assertions never fire.
 -/
 namespace DM.Props.C05
 open DM.Model DM.Model.Dec DM.Lemmas
@@ -85,5 +95,31 @@ example : (match decodeParts [236, 66, 241, 27, 67, 129] false with
 example : (match decodeData [230, 10, 242, 164, 182, 254, 129, 56] with
     | .ok v => v == [0xDF, 65, 49]
     | .error _ => false) = true := by decide +kernel
+
+/-- **The Reed–Solomon decoder never reaches an index / slice / subtraction / division / `assert!`
+panic site**, for every size and every codeword vector of the size's length: the only panic
+outcomes of the model are the debug re-checks of the Levinson–Durbin equations (3) and (4). -/
+theorem rs_decode_panics_only_algebraic (s : Sym) (cw : List Nat)
+    (hlen : cw.length = (row s).dataCw + (row s).blocks * (row s).eccPer) (site : String)
+    (h : RS.decode s cw = .error (.panic site)) :
+    site = "debug_assert eq (3)" ∨ site = "debug_assert eq (4)" :=
+  DM.Lemmas.RSTotal.decode_panic_algebraic_of_length s cw hlen site h
+
+/-- a successful Reed–Solomon decode returns a vector of the same length -/
+theorem rs_decode_length (s : Sym) (cw : List Nat)
+    (hlen : cw.length = (row s).dataCw + (row s).blocks * (row s).eccPer) (out : List Nat)
+    (h : RS.decode s cw = .ok out) : out.length = cw.length :=
+  DM.Lemmas.RSTotal.decode_length s cw hlen out h
+
+/-- the locator search on its own: for every syndrome vector -/
+theorem levinson_durbin_panics_only_algebraic (syn : List Nat) (site : String)
+    (h : RS.levinsonDurbin syn = .error (.panic site)) :
+    site = "debug_assert eq (3)" ∨ site = "debug_assert eq (4)" :=
+  DM.Lemmas.RSTotal.levinsonDurbin_panic_algebraic syn site h
+
+/-- the Chien search never panics and returns pairwise distinct non-zero roots (after an optional 0) -/
+theorem chien_search_total (c : List Nat) :
+    ∃ zero rs, RS.chienSearch c = .ok (zero ++ rs) ∧ (zero = [] ∨ zero = [0]) ∧ rs.Nodup ∧ ∀ r ∈ rs, r ≠ 0 ∧ r < 256 :=
+  DM.Lemmas.RSTotal.chienSearch_spec c
 
 end DM.Props.C05
